@@ -980,7 +980,7 @@ func (r *minRun) run() {
 }
 
 func init() {
-	register(&Scenario{Name: "minimize", Props: []string{"C09", "C19"}, Run: runMinimize})
+	register(&Scenario{Name: "minimize", Props: []string{"C09", "C19"}, Weight: map[string]int{"C19": 7}, Run: runMinimize})
 }
 
 func sameBits(a, b []float64) bool {
